@@ -255,13 +255,14 @@ def run(cx):
               found='; '.join(show(d)[:160] for d in devs))
     b = cx.fn('common::points::Rdp::generate_points')
     if b:
-        pushes = b.calls('Vec::push')
-        ok = len(pushes) == 1
+        from vpa import comp as CP
+        comps = [c for c in CP.comprehensions(cx, b, cx.retval(b)) if c.get('elem') is not None]
+        ok = len(comps) == 1
         if ok:
-            v = cx.arg(pushes[0], 1)
-            e = match('(index (self points) $i)', v)
-            ok = e is not None and match('(itervar (range 0 (len (self points))))', e['i']) is not None and \
-                cx.guarded(b, pushes[0].bb, '(index (self keep) $i)', True, e) is not None
+            c = comps[0]
+            I = '(itervar (range 0 (len (self points))))'
+            ok = match('(self points)', c['src']) is not None and match(f'(index (self points) {I})', c['elem']) is not None and \
+                CP.has_cond(c, f'(index (self keep) {I})', True) and len(c['conds']) == 1
         cx.ob('EXPR', 'Rdp::generate_points:subsequence', ok, 'the output is points[i] for ascending i filtered by keep[i]: a subsequence of the input', where=b.file)
     b = cx.fn('common::points::ramer_douglas_peucker')
     if b:
